@@ -108,6 +108,54 @@ def job_continuity(nfr, T, Fc, asc, oi, select):
     return recs
 
 
+def job_overwrite_select(nfr, select):
+    """a cadence built with t_overwrite=True: selecting a sub-cadence and injecting into it must neither move the
+    frames' start times nor break continuity with respect to them"""
+    recs = []
+    T, Fc = 1, 3
+    c = mk_cfg(T, Fc, True, options('x')[0])
+    tag = f"C16:overwrite-select:{(nfr, select)}"
+    df, dt, fch1, pre = geom_syms()
+    tau0, slew = Sym(z3.Real('tau0')), Sym(z3.Real('t_slew'))
+    Ds = [sym_data(T, Fc, f'D{m}_') for m in range(nfr)]
+    inp, kw = inject.build_inputs(c)
+
+    def run():
+        frames = [make_frame(T, Fc, True, df, dt, fch1, t_start=tau0) for m in range(nfr)]
+        for fr, D in zip(frames, Ds):
+            fr.data = D.copy()
+        cad = CAD.Cadence(frames, t_slew=slew, t_overwrite=True)
+        starts = [fr.t_start for fr in frames]
+        ts0 = [list(fr.ts) for fr in frames]
+        tgt = cad[select[1]:select[2]:select[3]] if select[0] == 'slice' else cad[list(select[1])]
+        starts_after_select = [fr.t_start for fr in frames]
+        tgt.add_signal(**kw)
+        return frames, starts, starts_after_select, ts0, [id(f) for f in tgt.frames], cad.slew_times
+    with cad_patches():
+        leaf = core.run_single(run, pre)
+    frames, starts, starts2, ts0, tgt_ids, slews = leaf.value
+    dis = [lift(a) != lift(b) for a, b in zip(starts, starts2)] + [lift(fr.t_start) != lift(a) for fr, a in zip(frames, starts)]
+    dis += [lift(sv) != slew.t for sv in slews]
+    first = [m for m, fr in enumerate(frames) if id(fr) == tgt_ids[0]][0]
+    members = [m for m, fr in enumerate(frames) if id(fr) in tgt_ids]
+    for m, fr in enumerate(frames):
+        if m in members:
+            shifted = [Sym(lift(t) + (lift(starts[m]) - lift(starts[first]))) for t in ts0[m]]
+            spec = inject.spec_signal(c, inp, list(fr.fs), shifted, fr.df, fr.dt, fr.fmin)
+        else:
+            spec = [[RV(0)] * Fc for _ in range(T)]
+        for i in range(T):
+            for j in range(Fc):
+                d = z3.simplify(lift(fr.data[i, j]) - lift(Ds[m][i, j]) - spec[i][j], som=True)
+                if not (z3.is_rational_value(d) and d.numerator_as_long() == 0):
+                    dis.append(d != 0)
+    r, m_ = core.check(pre + leaf.side + [z3.Or(*dis)], timeout_ms=120000)
+    recs.append(q(tag, r))
+    if r == 'sat':
+        recs.append(cex('C16:overwrite-select', 'selecting / injecting into a sub-cadence of a t_overwrite cadence moves start times or breaks continuity', dict(fn='ovsel', nfr=nfr, select=list(select)), name=tag))
+    return recs
+
+
 class Boom(Exception):
     pass
 
@@ -326,7 +374,20 @@ def replay_times(p):
     return bool(msgs), '; '.join(msgs) or 'ok'
 
 
-REPLAYS = {'cadence': replay_cadence, 'exact': replay_exact, 'times': replay_times}
+def replay_ovsel(p):
+    import setigen as stg
+    nfr, sel = p['nfr'], p['select']
+    frames = [stg.Frame(fchans=8, tchans=2, df=2.0, dt=4.0, fch1=4096.0, t_start=1000.0, seed=m) for m in range(nfr)]
+    cad = stg.Cadence(frames, t_slew=30.0, t_overwrite=True)
+    starts = [fr.t_start for fr in frames]
+    sub = cad[sel[1]:sel[2]:sel[3]] if sel[0] == 'slice' else cad[list(sel[1])]
+    sub.add_signal(stg.constant_path(4090.0, 0.01), stg.constant_t_profile(1.0), stg.box_f_profile(3.0))
+    after = [fr.t_start for fr in frames]
+    bad = starts != after or not np.allclose(cad.slew_times, 30.0)
+    return bad, f"start times before {starts} after selecting/injecting {after}; slew times {cad.slew_times}"
+
+
+REPLAYS = {'cadence': replay_cadence, 'exact': replay_exact, 'times': replay_times, 'ovsel': replay_ovsel}
 
 
 def main():
@@ -348,6 +409,8 @@ def main():
                 jobs.append(('job_fault', (nfr, k, which)))
         jobs.append(('job_exact_restore', (nfr,)))
         jobs.append(('job_times', (nfr, 2)))
+    for sel in (('slice', 0, None, 2), ('slice', 1, None, 2), ('index', (0, 2)), ('index', (2, 0)), ('slice', 1, 3, None)):
+        jobs.append(('job_overwrite_select', (3 if not ck.thorough else 4, sel)))
     for sel in (('slice', 1, 3), ('slice', 0, 2), ('index', (0, 2)), ('index', (2, 1))):
         for oi in (0, 1):
             jobs.append(('job_continuity', (3, 1, 3, True, oi, sel)))
